@@ -24,9 +24,16 @@ Deviations from DESIGN.md §4/C06 (reality required):
     observation, the statement only promises 1e-12 for log maps.
   * 'offset / number' with autoconvert: the docs say "all divisions" convert to base units, the
     test row divisions_with_scalar[2] says it raises; the more specific test row is followed.
-  * error class: a cell expected to raise accepts OffsetUnitCalculusError and DimensionalityError
-    alike (statement: "OffsetUnitCalculusError (or DimensionalityError on conversion)"), the class
-    actually seen is recorded; any other exception class is reported.
+  * error class: every 'raise' rule names the classes its source accepts - the literal tables for
+    + - * / use pytest.raises(OffsetUnitCalculusError), the exponentiation table and conversions
+    accept DimensionalityError (statement: "OffsetUnitCalculusError (or DimensionalityError on
+    conversion)"); the other pint class is reported as 'refused-with-other-pint-error-class', a
+    non-pint class as 'refused-with-foreign-error-class'.  (Silent on the unchanged tree; it is what
+    detects `_ok_for_muldiv` accepting exponent 2, whose only visible effect is the class.)
+  * F1/F2/F3 below are genuine findings of this check on the unchanged tree (see final report):
+    numpy number on the LEFT of * and / bypasses the offset rules (numpy_left_operand=True);
+    offset +- delta is refused when the delta's reference unit differs (same_reference=False);
+    log - x returns the undefined unit delta_<log unit> (result-has-undefined-unit).
   * mutation of the RIGHT operand by the in-place product (other.ito_root_units()) is recorded as
     an observation (`side_effects`), it is outside the statement (result unit/value).
 """
@@ -75,10 +82,11 @@ def exhaustive(tier):
 
 
 def required(tier):
-    return {"conv_value_checks": 1500, "conv_refused_checks": 300, "roundtrip_checks": 500,
-            "arith_value_checks": 4000, "arith_refused_checks": 1500, "inplace_twins": 1500,
-            "log_conv_checks": 150, "parse_checks": 300, "generated_offset_units": 200,
-            "cell_mode_matrix": 250, "add_sub_branches": 6, "iadd_sub_branches": 6, "modes": 4}
+    return {"conv_value_checks": 5000, "conv_refused_checks": 4000, "roundtrip_checks": 4000,
+            "arith_value_checks": 25000, "arith_refused_checks": 15000, "inplace_twins": 15000,
+            "log_conv_checks": 1500, "log_pairs": 49, "parse_checks": 1500, "generated_offset_units": 200,
+            "cell_mode_matrix": 2000, "rules_used": 40, "add_sub_branches": 9, "iadd_sub_branches": 9,
+            "modes": 4, "result_unit_definedness_checks": 20000}
 
 
 def shards(tier, seed):
@@ -95,7 +103,7 @@ def shards(tier, seed):
     for i, (a, d) in enumerate(MODES):
         for p in range(nparts):
             out.append({"kind": "gen", "auto": a, "delta": d, "name": f"gen-a{int(a)}d{int(d)}-{p}",
-                        "n": 22 if q else 400, "mags": 1 if q else 2})
+                        "n": 22 if q else 280, "mags": 1 if q else 2})
     for a in (False, True):
         out.append({"kind": "log", "auto": a, "name": f"log-a{int(a)}", "mags": 3 if q else 12})
     out.append({"kind": "conv", "name": "conv", "mags": 6 if q else 40})
@@ -342,7 +350,7 @@ class Env:
         return out
 
     # -- verdict -------------------------------------------------------------
-    def judge(self, exp, oc, op, L, R_, w, physical=False, counter="arith", extra=None):
+    def judge(self, exp, oc, op, L, R_, w, physical=False, counter="arith", extra=None, rtol=1e-9, atol=0.0):
         """Compare one observed outcome with the table's expectation."""
         rec = self.rec
         t = self.table
@@ -443,7 +451,7 @@ class Env:
             rec.violation("wrong-unit", dict(w, got=self.describe(val, True), want_units=_ud(exp.units),
                                              want=self.show(exp.x), rule=exp.rule), **fields)
             return False
-        if not self.close(val.magnitude, exp.x, exp.scale):
+        if not self.close(val.magnitude, exp.x, exp.scale, rtol=rtol, atol=atol):
             rec.violation("wrong-value", dict(w, got=self.describe(val, True), want=self.show(exp.x),
                                               want_units=_ud(exp.units), rule=exp.rule), **fields)
             return False
@@ -862,6 +870,7 @@ def run_gen(spec, rec, rng, pintload, pint):
             for ln in offs + ["delta_" + offs[0]]:
                 x, y = mags[0]
                 L = env.mq(x, {ln: 1})
+                root_cell(env, L)
                 number_forms(env, L, 3 if exact else 3.0)
                 power_forms(env, L, (1, 0, 2, -1) if exact else (1, 0, 2.0, 0.5, -1), [(2, {})])
                 for sh in ({ln: 2}, {ln: 1, names[-1]: -1}):
@@ -904,7 +913,8 @@ def convert_cell(env, L, dst, counter="conv", extra=None, rtol=1e-9, forms=("to"
     if snapshot(a) != sa:
         rec.violation("functional-form-mutated-an-operand", dict(w), operator="to", kinds=env.cell("to", L, RM.MQ(0, dst)).split("|", 1)[1],
                       mode=env.modekey, magnitude=env.magkind, workload=env.workload)
-    ok = env.judge(exp, oc, "to", L, RM.MQ(0, dst), w, counter=counter, extra=extra)
+    ok = env.judge(exp, oc, "to", L, RM.MQ(0, dst), w, counter=counter, extra=extra, rtol=rtol,
+                   atol=1e-12 if rtol <= 1e-12 else 0.0)
     # the other entry points must agree with Quantity.to
     alt = []
     alt.append(("convert", env.outcome(lambda: env.ureg.convert(L.x.copy() if RM.is_array(L.x) else L.x,
@@ -950,6 +960,33 @@ def convert_cell(env, L, dst, counter="conv", extra=None, rtol=1e-9, forms=("to"
     return ok
 
 
+def root_cell(env, L, counter="conv", rtol=1e-9):
+    """to_root_units / to_base_units of a single-unit quantity: the defining map itself."""
+    rec, t, RM = env.rec, env.table, env.R
+    s = t.shape(L)
+    if s not in ("OFF", "ABS", "DELTA", "LOG", "MULT"):
+        return
+    u = t.single(L)
+    try:
+        want = t.root_value(L)
+    except (OverflowError, ValueError):
+        rec.count("skipped_model_domain")
+        return
+    rule = ("ROOT: to_root_units()/to_base_units() apply the defining map a*x+b (offset), a*x (absolute, delta), "
+            "scale*logbase**(x/logfactor) (log) [NM 'home.to(kelvin)'; TO '0 degC -> 273.15 kelvin', '0 delta_degC -> 0 "
+            "kelvin'; LU \"ureg('20 dB').to_base_units() -> 100 dimensionless\"; DEF]")
+    for form in ("to_root_units", "to_base_units"):
+        a = env.q(L.x, L.units)
+        oc = env.outcome(lambda: getattr(a, form)())
+        if form == "to_base_units" and oc[0] == "ok":
+            # base units may differ from root units by the default system (kilogram vs gram): compare physically
+            oc = env.outcome(lambda: oc[1].to_root_units())
+        exp = RM.value(rule, want, u.root, scale=RM._mag(L.x) * abs(float(u.a)) + abs(float(u.b)))
+        env.table.used[rule] = env.table.used.get(rule, 0) + 1
+        env.judge(exp, oc, form, L, None, {"expr": f"{_show_opnd(env, L)}.{form}()", "mode": env.mode},
+                  counter=counter, rtol=rtol, atol=1e-12 if rtol <= 1e-12 else 0.0)
+
+
 def run_conv(spec, rec, rng, pintload, pint, m):
     """Conversions among the bundled temperature units and their compounds, all four modes."""
     from harness import c06_rules as R
@@ -969,6 +1006,9 @@ def run_conv(spec, rec, rng, pintload, pint, m):
             for s, d in itertools.product(singles, repeat=2):
                 for x in xs:
                     convert_cell(env, env.mq(x, {s: 1}), {d: 1})
+            for s in singles:
+                for x in xs:
+                    root_cell(env, env.mq(x, {s: 1}))
             # spellings: the same conversion through strings
             for s, d in itertools.product(singles, repeat=2):
                 x = xs[rng.randrange(len(xs))]
@@ -1030,6 +1070,8 @@ def run_log(spec, rec, rng, pintload, pint, m):
                     rec.count("log_conv_checks")
                     convert_cell(env, env.mq(x, {s: 1}), {d: 1}, rtol=1e-12)
             for s in LOGS:
+                for x in xs:
+                    root_cell(env, env.mq(x / 16 if s in ("octave", "decade") else x, {s: 1}), rtol=1e-12)
                 for lin in (lin_partner[s], {"watt": 1}, {}, {"kilowatt": 1}, {"meter": 1}):
                     for x in xs:
                         if s in ("octave", "decade"):
